@@ -513,3 +513,108 @@ Qed.
 
 Lemma recursion_limit_value : recursion_limit = 2%nat.
 Proof. reflexivity. Qed.
+
+(* ------------------------------------------------------------------ where a contextual lookup resumes *)
+(* find_nth: `last` is the position of the n-th glyph after i that the lookup does not skip *)
+Lemma find_nth_spec mt gd ids0 : forall n i last, 0 <= i -> find_nth mt gd ids0 i n = Some last ->
+  exists taken, length taken = n /\
+    unskipped mt gd (drop (i + 1) ids0) = taken ++ unskipped mt gd (drop (last + 1) ids0) /\
+    (n = O -> last = i) /\ (n <> O -> i < last < len ids0 /\ match_glyph mt gd (nthZ ids0 last) = true).
+Proof.
+  induction n as [|n IH]; intros i last Hi H; cbn [find_nth] in H.
+  - inversion H; subst. exists []. repeat split; try reflexivity; congruence.
+  - destruct (find_next mt gd ids0 i) as [p|] eqn:E; [|discriminate].
+    destruct (find_next_some mt gd ids0 i p Hi E) as (Hp & HP & HU).
+    destruct (IH p last ltac:(lia) H) as (taken & Hl & Ht & H0 & Hn).
+    exists (nthZ ids0 p :: taken). split; [cbn [length]; lia|]. split; [rewrite HU, Ht; reflexivity|]. split; [discriminate|].
+    intros _. destruct n as [|n'].
+    + rewrite (H0 eq_refl). split; [lia|exact HP].
+    + destruct (Hn ltac:(discriminate)) as [Hr Hm]. split; [lia|exact Hm].
+Qed.
+
+(* After a rule matched at i the reported length is (position of the LAST input glyph of the match in the run) - i
+   + 1 + (glyph-count change of the nested lookups), clamped at 0: skipped glyphs between input glyphs count. *)
+Theorem contextsubst_resume_position : forall rec gd subs mt i gs nl ch gs',
+  contextsubst rec gd subs mt i gs = Ok (Some (nl, ch), gs') ->
+  exists subst last,
+    contextsubst_would_apply gd subs mt i gs = Ok (Some subst) /\
+    find_nth mt gd (ids gs) i (Z.to_nat (gt_len (mc_input (fst subst)))) = Some last /\
+    apply_records rec mt (snd subst) gs i 0 = Ok (ch, gs') /\
+    nl = Z.max 0 (last - i + 1 + ch).
+Proof.
+  intros rec gd subs mt i gs nl ch gs' H. unfold contextsubst in H.
+  destruct (contextsubst_would_apply gd subs mt i gs) as [[subst|]|e| |] eqn:Ew; cbn [bind] in H; try discriminate.
+  unfold apply_subst_context in H.
+  destruct (find_nth mt gd (ids gs) i (Z.to_nat (gt_len (mc_input (fst subst))))) as [last|] eqn:En; [|discriminate].
+  destruct (apply_records rec mt (snd subst) gs i 0) as [[c g1]|e| |] eqn:Ea; cbn [bind] in H; try discriminate.
+  exists subst, last. unfold checked_add_isize in H.
+  destruct (last - i + 1 + c <? 0) eqn:E; inversion H; subst nl c g1;
+    (split; [reflexivity|split; [exact En|split; [exact Ea|lia]]]).
+Qed.
+
+Theorem chaincontextsubst_resume_position : forall rec gd subs mt i gs nl ch gs',
+  chaincontextsubst rec gd subs mt i gs = Ok (Some (nl, ch), gs') ->
+  exists subst last,
+    chaincontextsubst_would_apply gd subs mt i gs = Ok (Some subst) /\
+    find_nth mt gd (ids gs) i (Z.to_nat (gt_len (mc_input (fst subst)))) = Some last /\
+    apply_records rec mt (snd subst) gs i 0 = Ok (ch, gs') /\
+    nl = Z.max 0 (last - i + 1 + ch).
+Proof.
+  intros rec gd subs mt i gs nl ch gs' H. unfold chaincontextsubst in H.
+  destruct (chaincontextsubst_would_apply gd subs mt i gs) as [[subst|]|e| |] eqn:Ew; cbn [bind] in H; try discriminate.
+  unfold apply_subst_context in H.
+  destruct (find_nth mt gd (ids gs) i (Z.to_nat (gt_len (mc_input (fst subst))))) as [last|] eqn:En; [|discriminate].
+  destruct (apply_records rec mt (snd subst) gs i 0) as [[c g1]|e| |] eqn:Ea; cbn [bind] in H; try discriminate.
+  exists subst, last. unfold checked_add_isize in H.
+  destruct (last - i + 1 + c <? 0) eqn:E; inversion H; subst nl c g1;
+    (split; [reflexivity|split; [exact En|split; [exact Ea|lia]]]).
+Qed.
+
+(* the whole-run loop with its start / length bookkeeping is the scan ctx_scan *)
+Lemma context_loop_is_scan m mt gd step :
+  (forall i gs, 0 <= i < len gs -> good_ctx_result i gs (step i gs)) -> fits step ->
+  forall fuel gs i, 0 <= i -> len gs < MAXLEN ->
+  context_loop fuel m mt gd step gs 0 i (len gs) =
+  (gs' <- ctx_scan fuel mt gd step gs i ;; Ok (gs', len gs')).
+Proof.
+  intros Hgood Hfits. induction fuel as [|fuel IH]; intros gs i Hi Hlen; [reflexivity|].
+  cbn [context_loop ctx_scan]. pose proof (len_nonneg gs). unfold MAXLEN in *.
+  rewrite uadd_small by (unfold USIZE; lia). cbn [bind]. replace (0 + len gs) with (len gs) by lia.
+  destruct (i <? len gs) eqn:Ei; [|reflexivity].
+  destruct (gget_in_range gs i ltac:(lia)) as (g & ->). cbn [bind].
+  assert (Hnext : (i' <- uadd m i 1 ;; context_loop fuel m mt gd step gs 0 i' (len gs)) =
+                  (gs' <- ctx_scan fuel mt gd step gs (i + 1) ;; Ok (gs', len gs'))).
+  { rewrite uadd_small by (unfold USIZE; lia). cbn [bind]. apply IH; lia. }
+  destruct (match_glyph mt gd (g_id g)); [|exact Hnext].
+  pose proof (Hgood i gs ltac:(lia)) as Hg. pose proof (Hfits i gs) as Hf. unfold good_ctx_result in Hg.
+  destruct (step i gs) as [[[[nl ch]|] gs']|e| |]; cbn [bind]; try reflexivity; try contradiction.
+  - destruct Hg as (H1 & H2 & H3 & H4). specialize (Hf _ _ eq_refl). unfold MAXLEN in Hf. pose proof (len_nonneg gs').
+    rewrite uadd_small by (unfold USIZE; lia). cbn [bind].
+    unfold checked_add_isize. replace (len gs + ch <? 0) with false by lia.
+    rewrite <- H1. apply IH; lia.
+  - subst gs'. exact Hnext.
+Qed.
+
+(* GSUB lookup types 5 and 6 over the whole run = the scan *)
+Theorem context_lookup_is_scan : forall m lks gd li tag alt gs lk,
+  lookups_wf lks -> len gs < MAXLEN -> get_lookup lks li = Ok lk ->
+  let mt := from_lookup_flag (lk_flag lk) (lk_mfs lk) in
+  (forall subs, lk_body lk = LContext subs ->
+     let step := fun i g => contextsubst (apply_subst recursion_limit lks gd tag) gd subs mt i g in
+     fits step ->
+     gsub_apply_lookup m (Some lks) gd li tag alt gs 0 (len gs) =
+     (gs' <- ctx_scan (loop_fuel gs) mt gd step gs 0 ;; Ok (gs', len gs'))) /\
+  (forall subs, lk_body lk = LChain subs ->
+     let step := fun i g => chaincontextsubst (apply_subst recursion_limit lks gd tag) gd subs mt i g in
+     fits step ->
+     gsub_apply_lookup m (Some lks) gd li tag alt gs 0 (len gs) =
+     (gs' <- ctx_scan (loop_fuel gs) mt gd step gs 0 ;; Ok (gs', len gs'))).
+Proof.
+  intros m lks gd li tag alt gs lk Hw Hlen Hlk mt.
+  pose proof (get_lookup_wf lks li lk Hw Hlk) as Hwl.
+  split; intros subs Hb step Hfits; unfold gsub_apply_lookup; rewrite Hlk; cbn [bind]; rewrite Hb; fold mt.
+  - apply (context_loop_is_scan m mt gd step); try lia; [|exact Hfits].
+    intros i g Hi. apply contextsubst_good; [apply apply_subst_good; exact Hw|exact Hi].
+  - rewrite Hb in Hwl. apply (context_loop_is_scan m mt gd step); try lia; [|exact Hfits].
+    intros i g Hi. apply chaincontextsubst_good; [apply apply_subst_good; exact Hw|exact Hwl|exact Hi].
+Qed.
